@@ -153,6 +153,31 @@ def ieeeNormal (expBits manBits : Nat) (bits : Nat) : Nat × Int :=
   let ex := (bits / 2 ^ manBits) % 2 ^ expBits
   (2 ^ manBits + man, (ex : Int) - (2 ^ (expBits - 1) - 1 : Nat) - manBits)
 
+
+/-! ### the `_FillValue` attribute rules -/
+
+/-- the API paths through which an attribute named `_FillValue` can reach a variable -/
+inductive FvPath where
+  | putAtt            -- ncmpi_put_att (flexible)
+  | putAttTyped       -- ncmpi_put_att_<type>
+  | defVarFill        -- ncmpi_def_var_fill(varid, 0, &value)
+  | copyAtt (sameFile sameVar : Bool)   -- ncmpi_copy_att
+  | renameAtt         -- ncmpi_rename_att(…, "_FillValue")
+deriving Repr, DecidableEq
+
+/-- the rule of ncmpio_put_att / ncmpio_copy_att / ncmpio_rename_att: same type as the variable (NC_EBADTYPE −45),
+    exactly one element (NC_EINVAL −36), not on a variable that existed before the redefinition
+    (NC_ELATEFILL −122); in this order -/
+def fvRule (varType attType nelems : Nat) (isOld : Bool) : Int :=
+  if attType ≠ varType then -45 else if nelems ≠ 1 then -36 else if isOld then -122 else 0
+
+/-- return code of delivering `_FillValue` through `path`; a copy of an attribute onto itself changes nothing and
+    is exempt (`!(ncdp_in == ncdp_out && varid_in == varid_out)`) -/
+def fvAccept (path : FvPath) (varType attType nelems : Nat) (isOld : Bool) : Int :=
+  match path with
+  | .copyAtt true true => 0
+  | _ => fvRule varType attType nelems isOld
+
 /-! ### fill-mode bookkeeping -/
 
 /-- calls that change fill modes (all only legal in define mode) -/
